@@ -7,49 +7,49 @@ HERE = os.path.dirname(os.path.dirname(os.path.abspath(__file__)))
 
 T = {
     'C01': ('control-dependence of the load on exists ∧ ¬forced ∧ persisting; dependency facts of the storage-key term (every parameter repr, every input key, recursively); '
-            'registry keys at least as fine as the object\'s determinants; def-use of parameter values (declaring config only, deep-copied declarations); run arguments bound by name; work directories hold nothing of an earlier attempt when a result is published',
+            'registry keys at least as fine as the object\'s determinants; def-use of parameter values (declaring config only, deep-copied declarations); run arguments bound by name; work directories hold nothing of an earlier attempt when a result is published; a failed run leaves no data object behind (imported from C05); a used config is prepared with its final namespace and context (imported from C09)',
             'equality of returned and reference values over histories; user run()/repr() code; hash collisions',
             'CFG control dependence + symbolic key-term dependency analysis + def-use', '3 C01'),
     'C02': ('every order-unstable iteration feeding the hashed text is sorted; the key term contains no config name / path / namespace content / process state; ignore flags honoured on every path; '
-            'placeholder repr encoded exactly once; the key names inputs relative to the consumer\'s namespace; whether a string is rendered by its placeholder text does not depend on the variables', 'byte-equality of the text for every pair of semantically equal rewritings; user repr() methods',
+            'placeholder repr encoded exactly once; the key names inputs relative to the consumer\'s namespace; whether a string is rendered by its placeholder text does not depend on the variables', 'byte-equality of the text for every pair of semantically equal rewritings; user repr() methods; a registry in which nothing contributes renders as an empty registry',
             'symbolic term analysis of the hashed text (ordering, provenance, guards)', '3 C02'),
-    'C03': ('every user string reaching the hashed text passes an injective escaper; containers traversed completely; name=value binding with literal separators; digest >= 128 bit; the hashed text is encoded losslessly; AutoParameterObject leaves out an argument only for the three documented reasons; loop iterations of the renderers are independent',
+    'C03': ('every user string reaching the hashed text passes an injective escaper; containers traversed completely; name=value binding with literal separators; digest >= 128 bit; the hashed text is encoded losslessly; AutoParameterObject leaves out an argument only for the three documented reasons; loop iterations of the renderers are independent; a parameter object contributes its stored (private) constructor argument (imported from C02)',
             'injectivity of user-written repr(); hash collisions', 'injection-style lint over the symbolic key term', '3 C03'),
     'C04': ('Task.run unreachable from every construction / inspection entry point named by the property; every path through the load statement is free of RUN and upstream pulls; '
             'memo short-circuit; registry hit returns the registered object; data objects tested for truth keep object truthiness (no __len__/__bool__ in the Data hierarchy)', 'run counts over histories and across processes',
             'call-graph reachability with receiver-class specialisation + CFG dominance', '3 C04'),
     'C05': ('the visible path of every data class is created only by an atomic rename that follows all writes to the temporary; the failure handler of Task.data resets state, calls on_run_error and re-raises on every exceptional path; '
-            'type check dominates save; failed work directories are renamed aside, resumable ones never deleted on init; every attempt starts from an empty temporary (work dirs wiped, files opened truncating); the work directory handed to run() is the temporary path on every path',
+            'type check dominates save; failed work directories are renamed aside, resumable ones never deleted on init; every attempt starts from an empty temporary (work dirs wiped, files opened truncating); the work directory handed to run() is the temporary path on every path; the failure handler also covers a run aborted by a BaseException; a temporary file is closed before it is published',
             'torn writes inside third-party serialisers, fsync durability, equality of the recomputed value', 'effect summaries with symbolic path targets + CFG must-pass-through on exception edges', '3 C05'),
-    'C06': ('writer/reader codec, path, mode and order agree per data class and per file-cache class; load/exists/value are write-free; unset tests are identity tests; the serialiser receives the stored value itself; serialisers and parsers keep no state; the writer of generated sequences consumes its (possibly one-shot) iterable once; loop iterations of loaders / writers are independent',
+    'C06': ('writer/reader codec, path, mode and order agree per data class and per file-cache class; load/exists/value are write-free; unset tests are identity tests; the serialiser receives the stored value itself; serialisers and parsers keep no state; the writer of generated sequences consumes its (possibly one-shot) iterable once; loop iterations of loaders / writers are independent; temporaries are fresh and closed before they are published (imported from C05)',
             'value fidelity inside orjson / numpy / pandas / pickle (dtypes, unicode, NaN, 64-bit boundaries)', 'sibling cross-check of save/load pairs + effect summaries', '3 C06'),
     'C07': ('forced flag is a conjunct of the load guard; Task.force postcondition on all paths; edge orientation x closure direction = downstream; flags forwarded to the whole closure (value term of the forced set); delete() removes exactly the visible path; publishing replaces the stored result as a whole; the forced flag is cleared only after success; force loops carry no state between tasks',
             'run counts over request orders', 'CFG guards + symbolic term of the forced set + API-semantics table for graph closures + effect targets', '3 C07'),
-    'C08': ('acyclicity and missing-input gates on every construction path (all _prepare overrides); exclusion before registration; structured-name tests are segment-wise; inputs resolved namespace-exact; no declaration loop reads a local left behind by an earlier iteration (defaults, lookup results, exclusion sets)',
+    'C08': ('acyclicity and missing-input gates on every construction path (all _prepare overrides); exclusion before registration; structured-name tests are segment-wise; inputs resolved namespace-exact; no declaration loop reads a local left behind by an earlier iteration (defaults, lookup results, exclusion sets); the acyclicity test follows the last added edge',
             'edge identity for every configuration (needs the resolver run on concrete name sets)', 'CFG must-pass-through + name-kind lint', '3 C08'),
-    'C09': ('context order global then namespace, deep-copied; exact namespace equality; propagation to used configs; required/dtype gates; conflict test is a real comparison; first pass does not share task objects across namespaces; preparing a context does not modify the context given by the caller; no attribute of a caller-owned Config is read-modify-written [known finding]; every layer copied from a context passes deepcopy, global before namespace; the second-pass config copies parameters under the looked-up name',
+    'C09': ('context order global then namespace, deep-copied; exact namespace equality; propagation to used configs; required/dtype gates; conflict test is a real comparison; first pass does not share task objects across namespaces; preparing a context does not modify the context given by the caller; no attribute of a caller-owned Config is read-modify-written [known finding]; every layer copied from a context passes deepcopy, global before namespace; the second-pass config copies parameters under the looked-up name; a used Config object is prepared after its namespace and context are final; Config.repr_name names path and part with and without namespace',
             'resulting values for every config tree; YAML/JSON parsing', 'CFG ordering + taint (deepcopy sanitiser) + degenerate-equality class analysis + sibling cross-check', '3 C09'),
-    'C10': ('suffix priority is separator-aware; ambiguity and absence raise on every path; no positional pick; every access path routes through the one resolver and converts exactly KeyError; a name picked by position needs a test over all matches; no caller swallows the ambiguity error as "not found"; resolution loops carry no state',
+    'C10': ('suffix priority is separator-aware; ambiguity and absence raise on every path; no positional pick; every access path routes through the one resolver and converts exactly KeyError; a name picked by position needs a test over all matches; no caller swallows the ambiguity error as "not found"; resolution loops carry no state; a candidate matches without its group by the component after the last `:`',
             'the full resolution table over all name sets', 'name-kind lint + CFG raise discipline + call-graph must-reach', '3 C10'),
-    'C11': ('traversal reaches every list/dict depth and only strings; idempotence guard dominates substitution; undefined placeholder restored verbatim; lazy regex; substitution after context, before objects; repr encoded once; no exact-type test on config-derived (possibly substituted) strings; substitution results on bare strings are kept; a string is wrapped as substituted whenever a placeholder matched; in-place substitution only touches the config\'s own copies',
+    'C11': ('traversal reaches every list/dict depth and only strings; idempotence guard dominates substitution; undefined placeholder restored verbatim; lazy regex; substitution after context, before objects; repr encoded once; no exact-type test on config-derived (possibly substituted) strings; substitution results on bare strings are kept; a string is wrapped as substituted whenever a placeholder matched; in-place substitution only touches the config\'s own copies; every nested load of a context `uses` item forwards the variables (also through helper methods)',
             'regex behaviour on every string', 'CFG rules on the traversal + symbolic term of the replacement callback by lookup mode + regex AST + encoding-level (units) analysis + CFG ordering + taint of config-derived values', '3 C11'),
     'C12': ('the symbolic terms of key, directory, file name, extension and side-file derivation equal the frozen 1.4.0 reference terms; directory results replace the stored directory as a whole (layout <key>/ kept)',
             'nothing structural; residual risk is the normaliser fragment (differences it cannot interpret are UNDECIDED)', 'symbolic term equality against frozen reference terms (Merkle DAG)', '3 C12'),
     'C13': ('one registry object reaches every member chain and both passes; registry key = (task, storage key) and the storage key covers every input; registry hit / miss by cases on the value term; force fans out over all chains with its arguments unchanged; name-mode registry key names the config file; Task.force repeatable and Chain.force all-or-nothing (fan-out over shared tasks)', 'value equality with standalone chains',
             'def-use of the shared registry + symbolic value term of _create_task by cases + CFG loop rules', '3 C13'),
-    'C14': ('compute precedes save and nothing is saved on its exceptional exit; key-mismatch error propagates, other load errors fall through to recompute; full digest in the file name; force reaches the guard; get never computes; CacheException only for a key mismatch; the in-memory entry survives a failing forced computation; numpy entries can be read back as written',
+    'C14': ('compute precedes save and nothing is saved on its exceptional exit; key-mismatch error propagates, other load errors fall through to recompute; full digest in the file name; force reaches the guard; get never computes; CacheException only for a key mismatch; the in-memory entry survives a failing forced computation; numpy entries can be read back as written; the presence test is made under the key lock; save_value refuses a value before it opens the file for writing',
             'value round trip; behaviour on every truncation (library level)', 'CFG handler-order and must-pass-through rules + path term', '3 C14'),
-    'C15': ('every cache-file write happens under the key\'s lock; the existence check and the load it guards share one critical section; same lock identity in all entry points; every load holds the lock; the lock is a blocking, per-thread OS-level FileLock; a failing load never escapes get / get_or_compute; numpy entries are copies, not views of the file',
+    'C15': ('every cache-file write happens under the key\'s lock; the existence check and the load it guards share one critical section; same lock identity in all entry points; every load holds the lock; the lock is a blocking, per-thread OS-level FileLock; a failing load never escapes get / get_or_compute; numpy entries are copies, not views of the file; whether an entry is stored is decided while holding the lock; a refused value is refused before the file is truncated',
             'real interleavings; OS-level lock semantics (trusted)', 'lockset analysis (lock identity and configuration from the symbolic term of the with-item, also through helpers)', '3 C15'),
-    'C16': ('positional-to-keyword normalisation with consistent offsets, defaults filled, ignored names removed, sorted serialisation; sub-cache name = method[.version]; control keywords routed; an unreadable file-cache entry is recomputed and stored again',
+    'C16': ('positional-to-keyword normalisation with consistent offsets, defaults filled, ignored names removed, sorted serialisation; sub-cache name = method[.version]; control keywords routed; an unreadable file-cache entry is recomputed and stored again; a test on the kind of a parameter only sets *args / **kwargs aside; the binding dict is per call (not a memoised object); presence decided under the lock; a forced re-execution keeps the entry until it has the new value',
             'JSON distinguishability of arbitrary argument values; call counts', 'idiom rule over the normalisation loop + def-use', '3 C16'),
-    'C17': ('completion-ordered results pass an index sort before return on the sorted path; fun has exactly one call site per path and no try swallows its exception; chunk idiom well-formed; no helper closes the event loop the other helper obtains with get_event_loop()',
+    'C17': ('completion-ordered results pass an index sort before return on the sorted path; fun has exactly one call site per path and no try swallows its exception; chunk idiom well-formed; no helper closes the event loop the other helper obtains with get_event_loop(); the display arguments (desc, total, smoothing) reach only the progress bar',
             'actual schedules; exactly-once under executor semantics', 'taint on the symbolic value term (source as_completed, sanitiser index sort not crossed by a loop binder) + CFG rules for chunked', '3 C17'),
-    'C18': ('the run-scoped log handler is removed on every exit of Task.data; run info initialised before run, written only after a successful save; truncating log mode; record fields present; run-info and log file names are one-to-one in the result name',
+    'C18': ('the run-scoped log handler is removed on every exit of Task.data; run info initialised before run, written only after a successful save; truncating log mode; record fields present; run-info and log file names are one-to-one in the result name; also when run() is aborted by a BaseException; the run record is finished only after the value was stored',
             'log and record contents over histories', 'CFG pairing rule on normal and exceptional exits + dominance', '3 C18'),
     'C19': ('TestChain._prepare keeps the base pipeline stages in order; mocks are in-memory, return the stored value and have no RUN/FS effect; real tasks go through _create_task; the helper store is private or keyed by parameters and mocks [known finding]; chain code reads task results only through .value; input task objects are only asked for .value while a task is computed',
             'the differential equality of values', 'override consistency cross-check + effect summary', '3 C19'),
-    'C20': ('every mutating effect of migration targets the new chain; copies are src=old, dst=new under not dry and has_data guards; config identity (path and part) propagated; a task is skipped only for a legitimate reason; the name-mode identifier keeps the parts of a file apart; existing targets are compared with their source (never a value with itself); copies carry no option changing what is copied; the source != target guard compares like with like',
+    'C20': ('every mutating effect of migration targets the new chain; copies are src=old, dst=new under not dry and has_data guards; config identity (path and part) propagated; a task is skipped only for a legitimate reason; the name-mode identifier keeps the parts of a file apart; existing targets are compared with their source (never a value with itself); copies carry no option changing what is copied; the source != target guard compares like with like; the two chains are paired by the names their tasks are registered under; the source size is read only when the source has data',
             'equality of migrated values', 'effect summaries with receiver-substituted targets + CFG guards', '3 C20'),
 }
 
